@@ -70,7 +70,13 @@ static void do_mesh(const std::string& text, std::ostream& o, bool at_double = f
   const bool simpl = reader.get_shape_type() == R::ShapeType::simplex;
   const int sd = reader.get_shape_dim(), wd = reader.get_world_dim();
   if(reader.get_meshtype_string().empty()) { o << "NOTYPE"; return; }
-  if(at_double) { if(hyper && sd == 2 && wd == 2) run_mesh_h2d(reader, o); else o << "NOTYPE"; return; }
+  if(at_double)
+  {
+    if(hyper && sd == 2 && wd == 2) run_mesh_h2d(reader, o);
+    else if(hyper && sd == 3 && wd == 3) run_mesh_h3d(reader, o);
+    else o << "NOTYPE";
+    return;
+  }
   if(hyper && sd == 1 && wd == 1) run_mesh_h1(reader, o);
   else if(hyper && sd == 2 && wd == 2) run_mesh_h2(reader, o);
   else if(hyper && sd == 3 && wd == 3) run_mesh_h3(reader, o);
